@@ -5,7 +5,7 @@
    'incomplete', the whole does not); rbuf is ANY receive buffer size of at least one byte. *)
 From Coq Require Import List NArith ZArith Bool Lia.
 Import ListNotations.
-Require Import Codec Frame Rijndael RijP1 Cipher SCipher Client ClientReasm Session C07Proofs Config.
+Require Import Codec Frame Rijndael RijP1 Cipher SCipher Client ClientReasm Session C07Proofs C08Proofs C07Reply Config.
 Local Open Scope N_scope.
 
 Theorem C07_reassembly : forall key, bytes_ok key -> forall rbuf, (0 < rbuf)%nat ->
@@ -20,10 +20,26 @@ Theorem C07_reassembly : forall key, bytes_ok key -> forall rbuf, (0 < rbuf)%nat
   (s1, r1) = (s2, r2).
 Proof. intros key _ rbuf Hr. exact (C07Proofs.C07_reassembly key rbuf Hr). Qed.
 
+(* closed form, no premise about the stream left: EVERY encodable non-empty reply (okm: well-formed messages that fit one
+   frame), encrypted on the connection's chain with or without checksum, cut into ANY non-empty pieces (followed by
+   whatever else the peer sent), read through ANY receive buffer of at least one byte, is returned as exactly those
+   messages; the client's decrypting chain ends where the peer's encrypting chain ended; the rest stays queued *)
+Theorem C07_reply_any_segmentation : forall key, bytes_ok key -> forall rbuf, (0 < rbuf)%nat ->
+  let ks := key_schedule (key_pad key) in
+  forall crc ts ms s (e erest : list (list N)) (w : world message renv) j deadline fuel s' w' r,
+  okm ms -> ms <> [] ->
+  let c := fst (s_enc ks (div s) (c_encode crc ts ms)) in
+  concat e = c -> nonempty e ->
+  cur message renv w = Some j -> rview (est message renv w) = e ++ erest -> (clock message renv w <= deadline)%Z -> (length c < fuel)%nat ->
+  c_recv_loop key rbuf fuel deadline [] [] s w = (s', w', r) ->
+  r = Ok (list message) ms /\ div s' = snd (s_enc ks (div s) (c_encode crc ts ms)) /\ eiv s' = eiv s /\ authed s' = authed s /\
+  cur message renv w' = Some j /\ rview (est message renv w') = erest.
+Proof. intros key Bk rbuf Hr. exact (C07Reply.C07_reply_any_segmentation key Bk rbuf Hr). Qed.
+
 (* out-of-range receive buffer settings behave as one block (so every configured size is at least 32 bytes) *)
 Theorem C07_buffer_norm : forall b, (1 <= eff_rbuf b <= 2049)%N /\ ((b = 0 \/ 2049 < b)%N -> eff_rbuf b = 1%N).
 Proof.
   intro b. unfold eff_rbuf, Config.max_blocks. destruct (N.eqb_spec b 0); destruct (N.ltb_spec 2049 b); cbn [orb]; split; try lia; intros [?|?]; lia.
 Qed.
 
-Print Assumptions C07_reassembly. Print Assumptions C07_buffer_norm.
+Print Assumptions C07_reassembly. Print Assumptions C07_reply_any_segmentation. Print Assumptions C07_buffer_norm.
